@@ -127,4 +127,9 @@ void XmlAttribute::setNamespacePrefix(const std::string &prefix)
     xmlFree(fullElemName);
 }
 
+void XmlAttribute::setValue(const std::string &value)
+{
+    xmlNodeSetContent(reinterpret_cast<xmlNodePtr>(mPimpl->mXmlAttributePtr), reinterpret_cast<const xmlChar *>(value.c_str()));
+}
+
 } // namespace libcellml
